@@ -59,9 +59,11 @@ def decode_scenario(prop, cid, t, msg, dest_mode, defs, w=None, wv=None, label="
     if two_hop:
         # re-encode the decoded object with the reader's schema, then read it with the writer's
         vals.append(wv)
+        # the intermediary reuses its receive buffer before forwarding
+        steps.append({"op": "overwrite", "obj": 0, "byte": 238})
         steps.append({"op": "size", "ty": t, "obj": 0})
         steps.append({"op": "encode", "ty": t, "obj": 0, "buf": {"mode": "rel", "n": 0, "extra": 0}})
-        steps.append({"op": "decode", "ty": w, "from": 2, "dest": "fresh", "orig": len(vals) - 1})
+        steps.append({"op": "decode", "ty": w, "from": 3, "dest": "fresh", "orig": len(vals) - 1})
     return {"sid": cid, "prop": prop, "vals": vals, "steps": steps, "tags": [label] + list(extra_tags), "dkey": cid}
 
 
